@@ -58,6 +58,98 @@ def field_labels(e, inside=False, acc=None):
     return acc
 
 
+KNOWN_SAME_VALUE_EQ = "C03-equals-same-value-shortcut"
+
+
+def var_aliases(e, acc=None):
+    """name -> name for bindings of the form `local n = m` (n is another name of m's value)"""
+    acc = acc if acc is not None else {}
+    if isinstance(e, tuple):
+        if e and e[0] in ("local", "obj"):
+            for n, b in e[1]:
+                if isinstance(b, tuple) and b[:1] == ("var",):
+                    acc[n] = b[1]
+        for x in e[1:]:
+            var_aliases(x, acc)
+    elif isinstance(e, list):
+        for x in e:
+            var_aliases(x, acc)
+    return acc
+
+
+def self_compared_vars(e, alias=None, acc=None):
+    """names x such that the program contains `x == x` or `x != x`: the same variable on both sides,
+    or two variables one of which is bound directly to the other (`local b = a; a == b`)"""
+    alias = alias if alias is not None else var_aliases(e)
+    acc = acc if acc is not None else set()
+
+    def root(n):
+        seen = set()
+        while n in alias and n not in seen:
+            seen.add(n)
+            n = alias[n]
+        return n
+    if isinstance(e, tuple):
+        if (len(e) == 4 and e[0] == "bin" and e[1] in ("==", "!=") and isinstance(e[2], tuple)
+                and isinstance(e[3], tuple) and e[2][:1] == ("var",) and e[3][:1] == ("var",)
+                and root(e[2][1]) == root(e[3][1])):
+            acc.add(root(e[2][1]))
+        for x in e[1:]:
+            self_compared_vars(x, alias, acc)
+    elif isinstance(e, list):
+        for x in e:
+            self_compared_vars(x, alias, acc)
+    return acc
+
+
+def all_labels(e, acc):
+    if isinstance(e, tuple):
+        if e and e[0] == "trace":
+            acc.add(e[1])
+        for x in e[1:]:
+            all_labels(x, acc)
+    elif isinstance(e, list):
+        for x in e:
+            all_labels(x, acc)
+    return acc
+
+
+def binder_labels(e, names, acc=None):
+    """labels lexically inside what a binder of one of [names] is bound to (instrumented program):
+    local / object-local bindings, parameter defaults, the source of a comprehension `for`"""
+    acc = acc if acc is not None else set()
+    if isinstance(e, tuple):
+        t = e[0] if e else None
+        if t == "local" or t == "obj":
+            for n, b in e[1]:
+                if n in names:
+                    all_labels(b, acc)
+        elif t == "fun":
+            for n, dft in e[1]:
+                if n in names and dft is not None:
+                    all_labels(dft, acc)
+        elif t == "for" and len(e) == 3 and e[1] in names:
+            all_labels(e[2], acc)
+        for x in e[1:]:
+            binder_labels(x, names, acc)
+    elif isinstance(e, list):
+        for x in e:
+            binder_labels(x, names, acc)
+    return acc
+
+
+def known_same_value_eq(p, ip, bad):
+    """the evaluator answers `v == v` for one and the same array / object value without looking at its
+    elements (val.rs equals: ptr_eq short cut; the definition compares element by element).  Narrow
+    class: the program compares a variable with itself, every deviating label lies inside what that
+    variable is bound to, and the code evaluated it LESS often than the definition, never more."""
+    names = self_compared_vars(p)
+    if not names:
+        return False
+    inside = binder_labels(ip, names)
+    return all(lab in inside and c < s for lab, s, c in bad)
+
+
 def sharing_family():
     """fixed programs whose whole point is sharing: every label must fire exactly once"""
     V = lambda n: ("var", n)  # noqa
@@ -125,6 +217,8 @@ def sharing_family():
     progs.append(("bin", "&&", ("bool", False), bomb))
     progs.append(("len", ("comp", bomb, [("for", "x", ("arr", [N(1), N(2)]))])))
     progs.append(("local", [("a", ("arr", [bomb, N(5)]))], ("index", ("slice", V("a"), N(1), None, None), N(0))))
+    # witness of the known finding C03-equals-same-value-shortcut (reproduced on the real code on every run)
+    progs.append(("local", [("a", ("arr", [("bin", "+", N(1), N(1))]))], ("bin", "==", V("a"), V("a"))))
     # tailstrict forces arguments but changes no existing result
     progs.append(("app", ("fun", [("p", None), ("q", None)], V("p")), [N(1), N(2)], [], True))
     return progs
@@ -180,9 +274,13 @@ def correspond(run, binary, progs, exact_flags):
             what = ("an expression that call-by-need never evaluates was evaluated" if s == 0 else
                     "a needed expression was not evaluated" if c == 0 else
                     "a shared expression was evaluated a different number of times")
-            failures.append({"case": case, "summary": f"C03 {what}: label L{lab} sem={s} code={c}: {g.to_js(p)[:150]}",
-                             "expected": {"label": lab, "count": s}, "got": {"label": lab, "count": c},
-                             "all_bad": bad[:10]})
+            f = {"case": case, "summary": f"C03 {what}: label L{lab} sem={s} code={c}: {g.to_js(p)[:150]}",
+                 "expected": {"label": lab, "count": s}, "got": {"label": lab, "count": c},
+                 "all_bad": bad[:10]}
+            if known_same_value_eq(p, ip, bad):
+                f["known"] = KNOWN_SAME_VALUE_EQ
+                run.count("known:" + KNOWN_SAME_VALUE_EQ)
+            failures.append(f)
         elif len(run.samples) < 5 and nlab > 12:
             run.samples.append({"jsonnet": src[:600], "labels_fired": sorted(sem_labels.items())[:20]})
     run.coverage["skipped_out_of_fuel_or_unsupported"] = run.coverage.get("skipped_out_of_fuel_or_unsupported", 0) + skipped
